@@ -124,7 +124,7 @@ def repo_digest():
                 h.update(p.encode())
                 with open(p, 'rb') as f:
                     h.update(f.read())
-    for base in (HARNESS_SRC, LEAN):
+    for base in (HARNESS_SRC, os.path.join(VERIF, 'tools', 'go2lean'), LEAN):
         for root, dirs, files in os.walk(base):
             dirs[:] = sorted(d for d in dirs if d not in ('.lake', 'Gen'))
             for fn in sorted(files):
@@ -141,7 +141,7 @@ def prepare(log):
         dig = repo_digest()
         stamp = os.path.join(WORK, 'prepared.' + dig)
         if os.path.exists(stamp) and os.path.exists(HARNESS) and os.path.exists(DRIVER):
-            return {'ok': True, 'digest': dig, 'cached': True}
+            return {'ok': True, 'digest': dig, 'cached': True, 'translator': open(stamp).read()}
         for old in glob.glob(os.path.join(WORK, 'prepared.*')):
             os.remove(old)
         if os.path.exists(HARNESS):
@@ -151,6 +151,13 @@ def prepare(log):
         log.append(('go build -tags verif (harness against /repo)', rc, out[-3000:]))
         if rc != 0:
             return {'ok': False, 'stage': 'harness-build', 'output': out[-3000:], 'digest': dig}
+        # T1: regenerate the Lean text of the loop-free integer functions from the Go source text
+        g2l = os.path.join(WORK, 'go2lean')
+        rc, out = sh(['go', 'build', '-o', g2l, '.'], cwd=os.path.join(VERIF, 'tools', 'go2lean'), env=GOENV, timeout=600)
+        if rc == 0:
+            rc, out = sh([g2l, REPO, os.path.join(LEAN, 'Clemens', 'Gen', 'Src.lean')], env=GOENV, timeout=600)
+        log.append(('go2lean (regenerate Gen/Src.lean from the source text)', rc, out[-3000:]))
+        translator_note = out[-1500:] if rc != 0 else ''
         rc, out = sh([HARNESS, 'dump', os.path.join(LEAN, 'Clemens', 'Gen')], env=GOENV, timeout=300)
         log.append(('harness dump (regenerate Lean data from the running code)', rc, out[-3000:]))
         if rc != 0:
@@ -159,8 +166,8 @@ def prepare(log):
         log.append(('lake build driver', rc, out[-3000:]))
         if rc != 0:
             return {'ok': False, 'stage': 'driver-build', 'output': out[-3000:], 'digest': dig}
-        open(stamp, 'w').write(time.strftime('%F %T'))
-        return {'ok': True, 'digest': dig, 'cached': False}
+        open(stamp, 'w').write(translator_note)
+        return {'ok': True, 'digest': dig, 'cached': False, 'translator': translator_note}
 
 
 def theorems_in(path):
